@@ -372,16 +372,34 @@ def check_forms(rec, h, w, vals):
             cells[f'{COLS[j]}{i + 1}'] = f'={func}({text})'
     try:
         model = compile_spec({'sheets': {'D': data, 'F': cells},
-                              'names': names})
-        for i, func in enumerate(FUNCS):
-            want = expected(func, vals)
-            for j, name in enumerate(forms):
-                got = model.evaluate(f'F!{COLS[j]}{i + 1}')
-                if not ok(want, got):
-                    rec.fail(f'forms:{func}:{name}', case,
-                             f'{cells[COLS[j] + str(i + 1)]} over a {h}x{w} '
-                             f'sheet {vals} = {got!r}, expected {want!r}')
-                    return
+                              'names': names}, filename='forms-book')
+        origins = [('compiled', model)]
+        if (h + w + len(repr(vals))) % 3 == 0:
+            # the same model as it comes back from a file (its constants are
+            # then the yaml loader's number types)
+            from pycel.excelcompiler import ExcelCompiler
+            from vlib.xl import TempDir
+            import os
+            for a in cells:
+                model.evaluate(f'F!{a}')
+            fmt = ('yml', 'json', 'pkl')[(h * w) % 3]
+            with TempDir() as tmp:
+                model.to_file(os.path.join(tmp, 'm'), file_types=(fmt,))
+                origins.append((fmt, ExcelCompiler.from_file(
+                    os.path.join(tmp, f'm.{fmt}'))))
+            rec.label(f'forms:loaded:{fmt}')
+        for origin, mdl in origins:
+            for i, func in enumerate(FUNCS):
+                want = expected(func, vals)
+                for j, name in enumerate(forms):
+                    got = mdl.evaluate(f'F!{COLS[j]}{i + 1}')
+                    if not ok(want, got):
+                        rec.fail(f'forms:{func}:{name}' + (
+                            '' if origin == 'compiled' else ':loaded'), case,
+                            f'{cells[COLS[j] + str(i + 1)]} over a {h}x{w} '
+                            f'sheet {vals} ({origin} model) = {got!r}, '
+                            f'expected {want!r}')
+                        return
     except Exception as exc:
         rec.fail(f'forms:raises:{exc_key(exc)}', case, repr(exc)[:300])
 
